@@ -403,6 +403,12 @@ def HW.set (w : HW) (k v : Bytes) : HW := { w with header := (k, v) :: w.header.
 /-- `w.Write(data)` -/
 def HW.write (w : HW) (b : Bytes) : HW := { w with log := w.log ++ [.write b] }
 
+/-- `copy(dst, src)`: the first `min (len dst) (len src)` elements of `dst` are overwritten by those of `src` -/
+def copyInto {α : Type} (dst src : List α) : List α := src.take dst.length ++ dst.drop src.length
+
+/-- `copy(dst[k:], src)` with `k ≤ len dst` (Go panics otherwise; the translated code only uses it with such a `k`) -/
+def copyIntoAt {α : Type} (dst : List α) (k : Nat) (src : List α) : List α := dst.take k ++ copyInto (dst.drop k) src
+
 /-- a Go value of type `any` as a type switch sees it: a string, a byte slice, or a value of some other type (identity) -/
 inductive AnyV
   | str (s : Bytes)
